@@ -734,6 +734,20 @@ def rule_ag_numparse(cx, rep, port='py'):
         for x in ctors:
             n_exact += 1
             a0 = x.args[0]
+            if isinstance(a0, ast.Attribute) and is_name(a0.value, 'self'):
+                # a class-level constant (own or of a base class introduced by a refactoring): the nearest definition wins
+                chain, seen_ = [c], set()
+                while chain:
+                    k_ = chain.pop(0)
+                    if k_ is None or id(k_) in seen_:
+                        continue
+                    seen_.add(id(k_))
+                    defs_ = [st.value for st in k_.body if isinstance(st, ast.Assign) and len(st.targets) == 1 and is_name(st.targets[0], a0.attr)]
+                    if defs_:
+                        if len(defs_) == 1 and not any(isinstance(n_, (ast.Assign, ast.AugAssign)) and any(isinstance(t_, ast.Attribute) and t_.attr == a0.attr for t_ in (n_.targets if isinstance(n_, ast.Assign) else [n_.target])) for n_ in ast.walk(p.modules['rbql_engine'])):
+                            a0 = defs_[0]
+                        break
+                    chain.extend(p.cls('rbql_engine', dotted(b_).split('.')[-1], required=False) for b_ in k_.bases if dotted(b_))
             if isinstance(a0, ast.Constant) and a0.value is False:
                 rep.violated(cname + ' integer mode', x, '{} creates its NumHandler with start_with_int=False: integer columns are parsed as floats, so results are printed as 6.0 and lose exactness above 2**53'.format(cname))
             elif isinstance(a0, ast.Constant) and a0.value is True:
